@@ -380,6 +380,18 @@ def oracle(c, o):
         if k == "evstr" and (c["s"] or "").strip() == "":
             return "a timing string of blanks and line breaks only holds no event, yet parsing it raised %s" % o.get("__harness_exc__")
         return "library raised %s" % o.get("__harness_exc__") if k not in ("parse", "evstr") else None
+    if k == "evstr" and (c["s"] or "").strip() == "" and o != ["ok", []]:
+        return "a timing string of blanks and line breaks only (%r) holds no event; parsing it gave %s" % (c["s"], o)
+    if k == "evstr" and o[0] == "ok":
+        # rows that are well-formed by the documented shape beat=value come back as exactly those events (independent reading of the text)
+        rows = [r.strip() for r in (c["s"] or "").split(",")]
+        try:
+            from decimal import Decimal
+            want = [[fr(Fraction(round(Fraction(Decimal(r.split("=")[0].strip())) * 48), 48)), dec_obs(Decimal(r.split("=")[1].strip()))] for r in rows if r] if all(len(r.split("=")) == 2 for r in rows if r) else None
+        except Exception:
+            want = None
+        if want is not None and [x for x in rows if x] == rows and o[1] != want:
+            return "BeatValues.from_str(%r) = %s, its rows spell %s" % (c["s"], o[1], want)
     if k == "round":
         x = Fraction(c["n"], c["d"])
         for r in (o[2], o[3]):
